@@ -58,6 +58,25 @@ func (p *Prog) Paths(fn *ssa.Function) (paths []*Path, complete bool) {
 	mkD := func(st *state, ident bool) *D {
 		d := &D{P: p, CallIdentity: ident}
 		pred := st.pred
+		blocks := st.blocks
+		d.LoadVal = func(u *ssa.UnOp) ssa.Value {
+			a, ok := u.X.(*ssa.Alloc)
+			if !ok {
+				return nil
+			}
+			var last ssa.Value
+			for _, b := range blocks {
+				for _, ins := range b.Instrs {
+					if ins == u {
+						return last
+					}
+					if s, ok := ins.(*ssa.Store); ok && s.Addr == a {
+						last = s.Val
+					}
+				}
+			}
+			return nil
+		}
 		d.PhiVal = func(ph *ssa.Phi) ssa.Value {
 			pb, ok := pred[ph.Block()]
 			if !ok {
@@ -83,7 +102,7 @@ func (p *Prog) Paths(fn *ssa.Function) (paths []*Path, complete bool) {
 		for k, v := range st.pred {
 			pt.pred[k] = v
 		}
-		st2 := &state{pred: pt.pred}
+		st2 := &state{pred: pt.pred, blocks: pt.Blocks}
 		pt.D = mkD(st2, false)
 		paths = append(paths, pt)
 	}
